@@ -6,6 +6,9 @@ import WsVerif.Model.Consts
 import Mathlib.Tactic.Ring
 import Mathlib.Tactic.FieldSimp
 import Mathlib.Tactic.Positivity
+import WsVerif.Gen.NpKernels
+import WsVerif.Model.NpTwins
+import WsVerif.Lemmas.NpBridge
 /-!
 # C02 — peak parameters are taken at the true spectral peak
 -/
@@ -301,5 +304,60 @@ theorem gamma_full_fails : ¬ GammaAtPeak := by
 example : peakIdx [10, 1, 2, 5, 2, 1] = 3 := by decide +kernel
 example : peakIdx [1, 2, 2, 1] = 0 := by decide +kernel   -- flat top: no strict peak
 example : peakIdx [0, 3, 1, 3, 0] = 1 := by decide +kernel -- equal peaks: the first
+
+/-! ## T-tier: regenerated kernels
+
+`npstats.dpm`, `dp`, `dpspr`, `tp` (NaN rule `if not ipeak`) and `npstats.alpha` (window selection with
+`np.where`, the three cases of `pos`, `term1`, `term2`) are regenerated in full into `Gen/NpKernels.lean` and
+identified here with the `Peak` model for all inputs.  `np.arctan2` splits `dpm` into its argument pair and the
+arithmetic after it; `np.exp(1.25·(fp/f)⁴)` is an oracle table whose argument function is regenerated. -/
+
+theorem gen_dpm_eq (p : Nat) (ms mc : Vec) :
+    Gen.npDpmVec p ms mc = atPeak p (getR ms p, getR mc p) := rfl
+
+example : Gen.npDpmVec 0 [1, 2] [3, 4] = none ∧ Gen.npDpmVec 1 [1, 2] [3, 4] = some (2, 4) := by decide +kernel
+
+/-- the model's `dpmVec` is the regenerated `dpm` applied at the detected peak to the model's moment rows -/
+theorem gen_dpm_model_eq (ddv : ℚ) (s c : Vec) (e : Mat) :
+    dpmVec ddv s c e = Gen.npDpmVec (peakIdx (oned ddv e)) (momdRow ddv s e) (momdRow ddv c e) := rfl
+
+theorem gen_dpm_post_eq (pi a : ℚ) : Gen.npDpmPost pi a = Stats.dirOfAtan pi a := rfl
+
+theorem gen_dp_eq (p : Nat) (dir : Vec) : Gen.npDp p dir = getR dir p := rfl
+
+theorem gen_dpspr_eq (p : Nat) (v : Vec) : Gen.npDpspr p v = atPeak p (getR v p) := rfl
+
+theorem gen_npTp_eq (p : Nat) (S f : Vec) : Gen.npTp p S f = Gen.tp p S f ∧ Gen.npTp p S f = atPeak p (1 / getR f p) :=
+  ⟨rfl, rfl⟩
+
+theorem gen_alpha_pos_eq (fp : ℚ) (f : Vec) :
+    Gen.npAlphaPos f fp = alphaPos Consts.alphaLo Consts.alphaHi fp f := by
+  unfold Gen.npAlphaPos alphaPos
+  have := where_window_eq Consts.alphaLo Consts.alphaHi fp f
+  unfold Consts.alphaLo Consts.alphaHi at this ⊢
+  simp only [this]
+  rcases windowIdx _ _ fp f with _ | ⟨i, _ | ⟨j, l⟩⟩ <;> simp
+
+/-- non-vacuity: on `f = 0.1, 0.2, …, 0.6` with `fp = 0.2` the window `(0.27, 0.4)` holds the single bin 2 → `[2, 3]` -/
+example : Gen.npAlphaPos [1/10, 1/5, 3/10, 2/5, 1/2, 3/5] (1/5) = [2, 3] := by decide +kernel
+
+/-- `npstats.alpha` -/
+theorem gen_alpha_val_eq (pi g fp : ℚ) (S f ex : Vec) :
+    Gen.npAlpha pi g S f fp ((alphaPos Consts.alphaLo Consts.alphaHi fp f).map fun i => getR ex i) =
+      alphaVal ((2 * pi) ^ 4 / g ^ 2) (alphaPos Consts.alphaLo Consts.alphaHi fp f) f S ex := by
+  have h : Gen.npAlpha pi g S f fp ((alphaPos Consts.alphaLo Consts.alphaHi fp f).map fun i => getR ex i) =
+      (let pos := Gen.npAlphaPos f fp
+       (2 * pi) ^ 4 / g ^ 2 / (((pos.getLastD 0 : Nat) : ℚ) - ((pos.getD 0 0 : Nat) : ℚ) + 1) *
+        (List.zipWith (fun a b => a * b) (List.zipWith (fun a b => a * b) (pos.map fun i => getR S i)
+          (List.map (fun t => t ^ 5) (pos.map fun i => getR f i)))
+          ((alphaPos Consts.alphaLo Consts.alphaHi fp f).map fun i => getR ex i)).sum) := rfl
+  rw [h, gen_alpha_pos_eq]
+  simp only [alphaVal, sum_zip3_map]
+  congr 3
+  cases alphaPos Consts.alphaLo Consts.alphaHi fp f <;> rfl
+
+theorem gen_alpha_table :
+    Gen.npAlpha_ex_fn = "np.exp(·)" ∧ ∀ fp f : ℚ, Gen.npAlpha_ex_arg fp f = alphaExpArg fp f :=
+  ⟨by decide +kernel, fun _ _ => rfl⟩
 
 end WS.C02
